@@ -4,10 +4,12 @@ CONSTANTS MaxBlock = 2 MaxOps = 4 MaxLen = 3
   Takes = {0}
   Srcs = {"iter"}
   SplitBufs <- SplitBufsQuick
+  Rets = {"gen"}
   Variant = "intended"
 INVARIANT RunIsBlocks
 INVARIANT Terminates
 INVARIANT Accounted
 INVARIANT ConcatEqRun
+INVARIANT RetIndependent
 INVARIANT Census
 CHECK_DEADLOCK FALSE
